@@ -33,6 +33,7 @@ mod c16n {
         kani::cover!(c == LIMIT - 1, "largest count that must still succeed");
     }
     #[kani::proof]
+#[kani::unwind(4)]
     #[kani::stub(triomphe::abort, abort_stub)]
     fn q_nostd_arc() {
         let a = Arc::new(7u32);
@@ -49,6 +50,7 @@ mod c16n {
         forget(t);
     }
     #[kani::proof]
+#[kani::unwind(4)]
     #[kani::stub(triomphe::abort, abort_stub)]
     fn q_nostd_offset() {
         let a = Arc::new(7u16);
@@ -57,6 +59,7 @@ mod c16n {
         forget(a);
     }
     #[kani::proof]
+#[kani::unwind(4)]
     #[kani::stub(triomphe::abort, abort_stub)]
     fn q_nostd_union_second() {
         let a = Arc::new(7u16);
